@@ -16,3 +16,12 @@ CLAIMED["C15"] = dict(engine="E1", category="exploration", design_ref="DESIGN.md
     technique="bounded-exhaustive enumeration of all small image shapes x factors x header/input/image kinds on the real compress/expand",
     text="All shapes in [2..10]^2 (quick) / [2..20]^2 plus extras (thorough) x factors up to 64 x {CDELT,CD} x {file,HDUList} x three image kinds are compressed and expanded by the real code; shape, WCS keywords, BN_* removal, node exactness, range and complete-cell exactness are checked on every case; SR6 CLI and Aegean's aux loader on a slice.",
     note="Trusts astropy.io.fits; node-linear test images are dyadic so float32 storage is exact.")
+ENGINES[0]["serves_properties"] += ["C02", "C16"]
+CLAIMED["C16"] = dict(engine="E1", category="exploration", design_ref="DESIGN.md section 3, C16",
+    technique="bounded-exhaustive enumeration of a projection x reference point x scale x pixel x ellipse lattice vs an independent FITS Paper II zenithal model and longdouble spherical geometry",
+    text="Full product of 5 projections x 5 reference points (high |dec|, RA wrap) x 3-5 pixel scales x 5 pixel positions x ellipse size/ratio/angle lattices is run through the real WCSHelper; positions are compared with an independent implementation of the FITS standard in (row, column) 1-based order, vectors/ellipses with great-circle lengths and bearings East of North, and all round trips are closed at the property's tolerances.",
+    note="Rotation-free square pixels, |dec| <= 85; trusts the 80-line zenithal reference (self-checked by its own inverse on every case) and longdouble trigonometry.")
+CLAIMED["C02"] = dict(engine="E1", category="exploration", design_ref="DESIGN.md section 3, C02",
+    technique="exhaustive enumeration of ALL images over a signal-to-noise alphabet on small grids vs a breadth-first flood-fill reference",
+    text="Every image over alphabets of 2-10 signal-to-noise letters (incl. NaN, negative, exact-threshold ties) on every grid up to 3x3 / 2x3 (quick) and 3x4 / 4x4 / 3x5 (thorough), each through three (image, background, noise) realisations and two seeds, is passed to the real find_islands and compared as a set of (pixel set, bounding box) with an independent BFS; disjointness, blank-free membership and seed monotonicity are checked directly.",
+    note="Grid sizes are bounded (<= 15 pixels); thresholds fixed at flood 4, seeds 5 and 7; the component-origin clause is covered on scenes in C03/C11.")
